@@ -26,6 +26,8 @@ pub struct Caps {
     pub is_stack: bool,
     /// the stack's own index container stores nothing on the heap for dense indices (C19)
     pub stack_ic: u8, // 0 = n/a, 1 = Vec, 2 = IndexOptimized, 3 = IndexList
+    /// composition stores vectors of zero-sized elements by length only (huge lengths are safe)
+    pub zst_huge: bool,
 }
 
 pub trait Sut: Sized + 'static {
@@ -106,6 +108,7 @@ impl<S: Spec> Sut for RegionSut<S> {
             plain: S::PLAIN,
             is_stack: false,
             stack_ic: 0,
+            zst_huge: S::NAME.contains("OwnedRegion<()>") && !S::NAME.contains("Collapse"),
         }
     }
     fn new() -> Self {
@@ -213,6 +216,7 @@ impl<S: Spec, IC: StackIc<S::Idx>> Sut for StackSut<S, IC> {
             plain: S::PLAIN,
             is_stack: true,
             stack_ic: IC::KIND,
+            zst_huge: false,
         }
     }
     fn new() -> Self {
